@@ -126,3 +126,11 @@ package tx
 //@   ensures every_persisted_record_is_in_the_pool: result == nil ==> (forall i int :: 0 <= i && i < kvLen(iter) ==> sel(sel(syncVal, t.UnconfirmTxInMem), boxed(recTxid(iter, i))) != nil) && t.UnconfirmTxAmount == kvLen(iter)
 //@   at Database.NewIteratorWithPrefix assert over_the_unconfirmed_table: recv == t.ldb && str($0) == xldgpb.UnconfirmedTablePrefix
 //@   loop 1 invariant loaded_so_far: sel(kvPos, iter) >= 0 - 1 && sel(kvPos, iter) < kvLen(iter) && count == sel(kvPos, iter) + 1 && t.UnconfirmTxInMem == old(t.UnconfirmTxInMem) && (forall i int :: 0 <= i && i <= sel(kvPos, iter) ==> sel(sel(syncVal, t.UnconfirmTxInMem), boxed(recTxid(iter, i))) != nil)
+
+// The amount a transaction's requests transfer to a contract: parsed into a number of its own;
+// no number that existed before is touched.
+//@ func ParseContractTransferRequest
+//@   property C09
+//@   modifies ghost bigval
+//@   ensures existing_numbers_untouched: forall r int :: r <= old(allocTop()) ==> sel(bigval, r) == sel(old(bigval), r)
+//@   loop 1 invariant existing_numbers_untouched_so_far: amount != nil && amount > old(allocTop()) && (forall r int :: r <= old(allocTop()) ==> sel(bigval, r) == sel(old(bigval), r))
